@@ -118,13 +118,10 @@ impl Interpreter {
                 state.stack.push_bytes(a);
             }
             OpCodes::OP_IFDUP => {
-                let predicate = state.stack.pop_bool()?;
+                // Duplicates the top item if it is true; the item itself stays where it is
+                let top_data = state.stack.last().cloned().ok_or(InterpreterError::EmptyStack)?;
+                let predicate = vec![top_data.clone()].pop_bool()?;
                 if predicate {
-                    let top_data = match state.stack.last().cloned() {
-                        Some(v) => v,
-                        None => return Err(InterpreterError::EmptyStack),
-                    };
-
                     state.stack.push(top_data);
                 }
             }
